@@ -39,9 +39,14 @@ Low31(b) ==
 BitsToInt(b) == IF b[W] = 0 THEN Low31(b) ELSE -(Low31([i \in 1..W |-> 1 - b[i]])) - 1
 
 \* ---- bitwise / arithmetic operators on vectors -------------------------
-BNot(b) == [i \in 1..W |-> 1 - b[i]]
-BXor(a, b) == [i \in 1..W |-> (a[i] + b[i]) % 2]
-Shl1(b) == [i \in 1..W |-> IF i = 1 THEN 0 ELSE b[i-1]]
+\* TLC evaluates [i \in S |-> e] lazily, element by element and again on every access;
+\* nested vector expressions would be recomputed exponentially often.  SubSeq is
+\* implemented in Java and materialises its argument once.
+Force(f) == SubSeq(f, 1, W)
+
+BNot(b) == Force([i \in 1..W |-> 1 - b[i]])
+BXor(a, b) == Force([i \in 1..W |-> (a[i] + b[i]) % 2])
+Shl1(b) == Force([i \in 1..W |-> IF i = 1 THEN 0 ELSE b[i-1]])
 \* arithmetic shift right by one
 Sar1(b) == [i \in 1..W |-> IF i = W THEN b[W] ELSE b[i+1]]
 \* all bits equal to the sign (this is v >> (w-1) for any w-bit v)
@@ -56,7 +61,7 @@ BAdd(a, b) ==
   LET RECURSIVE carry(_)
       carry(i) == IF i = 1 THEN 0
                   ELSE LET c == carry(i-1) IN (a[i-1] + b[i-1] + c) \div 2
-  IN [i \in 1..W |-> (a[i] + b[i] + carry(i)) % 2]
+  IN Force([i \in 1..W |-> (a[i] + b[i] + carry(i)) % 2])
 
 One == NatBits(1)
 Zero == NatBits(0)
